@@ -66,6 +66,21 @@ def handleDim (D : Dim Pt) (op : String) : P String :=
   | "curve.reversed" => do
       let c ← curveP D
       pure (optCurve D c.reversed)
+  | "curve.resample" => do
+      let c ← curveP D; let mode ← tok
+      let positions ← (if mode = "count" then do
+          let k ← n; pure (positionsByCount Float.ofNat c.length k)
+        else if mode = "spacing" then do
+          let s ← f; pure (centred c.length (positionsBySpacing c.length s 10000000 0 []))
+        else if mode = "maxspacing" then do
+          let m ← f
+          let k := Nat.max 2 ((Float.ceil (c.length / m)).toUInt64.toNat + 1)
+          pure (positionsByCount Float.ofNat c.length k)
+        else failure)
+      pure (optCurve D (c.resampleAt positions))
+  | "curve.simplify" => do
+      let c ← curveP D; let tol ← f
+      pure (optCurve D (Curve.fromPoints (rdp c.verts tol) c.tol c.closed D.blend))
   | "curve.rdp" => do
       let pts ← list D.parse; let tol ← f
       pure (Out.list D.show_ (rdp pts tol))
